@@ -19,12 +19,72 @@ RULE = ("records generated as sequences of events (dry spells, light rain, storm
         "non-trivial when it has at least one candidate storm-rise pair or one interstorm interval; distinct by input")
 
 
+def match_storms_stream(ctx, n):
+    """classify.match_storms on dense layouts (no database): completes, one-to-one, overlapping, = model"""
+    import numpy as np
+    from . import common, gen
+    from .common import f2h
+    common.import_spowtd()
+    import spowtd.classify as cm
+    ob = "classify.match_storms = model classifyIdx pairs at Float (dense layouts, function level)"
+    for _ in range(n):
+        s, j = gen.pick_thresholds(ctx.rng)
+        rec = gen.layout_record(ctx.rng, s, j, t0=0, gaps=0)
+        rain = rec.rain[rec.pre:rec.pre + rec.n]
+        level = rec.level
+        jd = j * (rec.dt / 3600.0)
+        inp = {"function": "classify.match_storms", "rain": rain, "head": level, "rain_threshold": s, "jump_threshold": jd}
+        try:
+            ri, hi = cm.match_storms(np.array(rain), np.array(level), s, jd)
+            got = sorted([[int(a), int(b)], [int(c), int(d) - 1]] for (a, b), (c, d) in zip(ri, hi))
+            err = None
+        except Exception as e:  # noqa
+            got, err = None, "%s: %s" % (type(e).__name__, e)
+        m = ctx.driver.call("classifyidx.f", {"s": f2h(s), "j": f2h(j), "dt": rec.dt, "zeta": [f2h(v) for v in level],
+                                              "rain": [f2h(v) for v in rain], "pick": "first"})
+        model = sorted([list(p[0]), list(p[1])] for p in m["pairs"])
+        ncand = sum(len(p[1]) for p in m["prefs"])
+        ctx.case(("match_storms", tuple(rain), tuple(level), s, j), ncand > len(m["pstorms"]))
+        wit = None
+        if err is not None:
+            wit = {"why": "match_storms raised", "exception": err}
+        else:
+            ss = [tuple(p[0]) for p in got]
+            rs = [tuple(p[1]) for p in got]
+            if len(set(ss)) != len(ss) or len(set(rs)) != len(rs):
+                wit = {"why": "a storm or a rise appears more than once", "pairs": got}
+            elif any(not (max(p[0][0], p[1][0]) < min(p[0][1], p[1][1])) for p in got):
+                wit = {"why": "a recorded pair shares no time step", "pairs": got}
+        same = err is None and (got == model or not m["strict"])
+        ctx.obligation(ob, same and wit is None)
+        if wit is not None:
+            ctx.violation("impl-violation", "c01Holds", {"input": inp, "impl": got if err is None else err, "model": model,
+                          "oracle": {"name": "c01Holds", "result": False, "witness": wit}})
+        elif not same:
+            ctx.corr_break(ob, {"input": inp, "impl": got, "model": model})
+
+
 def run(ctx):
     if ctx.tier == "quick":
+        match_storms_stream(ctx, 1500)
         R.run_records(ctx, "C01", 240, exhaustive_n=0, field=2)
     else:
+        match_storms_stream(ctx, 40000)
         R.run_records(ctx, "C01", 3000, exhaustive_n=5, field=12)
 
 
 def replay(ctx, doc):
+    if doc.get("input", {}).get("function") == "classify.match_storms":
+        import numpy as np
+        from . import common
+        common.import_spowtd()
+        import spowtd.classify as cm
+        i = doc["input"]
+        try:
+            ri, hi = cm.match_storms(np.array(i["rain"]), np.array(i["head"]), i["rain_threshold"], i["jump_threshold"])
+        except Exception as e:  # noqa
+            print("match_storms raised", repr(e))
+            return False
+        print("pairs:", list(zip(ri, hi)))
+        return len(set(ri)) == len(ri) and len(set(hi)) == len(hi)
     return R.replay_record(ctx, "C01", doc)
